@@ -92,6 +92,14 @@ CouponHashSet<A>* CouponHashSet<A>::newSet(const void* bytes, size_t len, const 
   if (lgArrInts < hll_constants::LG_INIT_SET_SIZE) {
     lgArrInts = HllUtil<>::computeLgArrInts(SET, couponCount, lgK);
   }
+  HllUtil<A>::checkLgK(lgK);
+  // the table never grows beyond 2^(lgK - 3) slots and is promoted to HLL before it is more than 3/4 full
+  if (lgArrInts < hll_constants::LG_INIT_SET_SIZE || lgArrInts > lgK - 3) {
+    throw std::invalid_argument("Possible corruption: invalid coupon hash set size: lgArrInts = " + std::to_string(lgArrInts));
+  }
+  if (couponCount > ((hll_constants::RESIZE_NUMER << lgArrInts) / hll_constants::RESIZE_DENOM)) {
+    throw std::invalid_argument("Possible corruption: coupon count exceeds the hash set capacity: " + std::to_string(couponCount));
+  }
   // Don't set couponCount in sketch here;
   // we'll set later if updatable, and increment with updates if compact
   const uint32_t couponsInArray = (compactFlag ? couponCount : (1 << lgArrInts));
@@ -103,6 +111,8 @@ CouponHashSet<A>* CouponHashSet<A>::newSet(const void* bytes, size_t len, const 
 
   ChsAlloc chsa(allocator);
   CouponHashSet<A>* sketch = new (chsa.allocate(1)) CouponHashSet<A>(lgK, tgtHllType, allocator);
+  typedef std::unique_ptr<CouponHashSet<A>, std::function<void(HllSketchImpl<A>*)>> coupon_hash_set_ptr;
+  coupon_hash_set_ptr ptr(sketch, sketch->get_deleter());
 
   if (compactFlag) {
     const uint8_t* curPos = data + hll_constants::HASH_SET_INT_ARR_START;
@@ -117,9 +127,23 @@ CouponHashSet<A>* CouponHashSet<A>::newSet(const void* bytes, size_t len, const 
     std::memcpy(sketch->coupons_.data(),
                 data + hll_constants::HASH_SET_INT_ARR_START,
                 couponsInArray * sizeof(uint32_t));
+    sketch->checkStoredCount();
   }
 
-  return sketch;
+  return ptr.release();
+}
+
+// the count field of an updatable image must agree with the table (sizes of later allocations depend on it)
+template<typename A>
+void CouponHashSet<A>::checkStoredCount() const {
+  uint32_t stored = 0;
+  for (const uint32_t coupon: this->coupons_) {
+    if (coupon != hll_constants::EMPTY) ++stored;
+  }
+  if (stored != this->couponCount_) {
+    throw std::invalid_argument("Possible corruption: coupon count " + std::to_string(this->couponCount_)
+        + " does not match the number of stored coupons " + std::to_string(stored));
+  }
 }
 
 template<typename A>
@@ -153,8 +177,19 @@ CouponHashSet<A>* CouponHashSet<A>::newSet(std::istream& is, const A& allocator)
   const bool compactFlag = ((listHeader[hll_constants::FLAGS_BYTE] & hll_constants::COMPACT_FLAG_MASK) ? true : false);
 
   const auto couponCount = read<uint32_t>(is);
+  if (!is.good()) {
+    throw std::runtime_error("error reading from std::istream");
+  }
   if (lgArrInts < hll_constants::LG_INIT_SET_SIZE) {
     lgArrInts = HllUtil<>::computeLgArrInts(SET, couponCount, lgK);
+  }
+  HllUtil<A>::checkLgK(lgK);
+  // the table never grows beyond 2^(lgK - 3) slots and is promoted to HLL before it is more than 3/4 full
+  if (lgArrInts < hll_constants::LG_INIT_SET_SIZE || lgArrInts > lgK - 3) {
+    throw std::invalid_argument("Possible corruption: invalid coupon hash set size: lgArrInts = " + std::to_string(lgArrInts));
+  }
+  if (couponCount > ((hll_constants::RESIZE_NUMER << lgArrInts) / hll_constants::RESIZE_DENOM)) {
+    throw std::invalid_argument("Possible corruption: coupon count exceeds the hash set capacity: " + std::to_string(couponCount));
   }
 
   ChsAlloc chsa(allocator);
@@ -178,6 +213,7 @@ CouponHashSet<A>* CouponHashSet<A>::newSet(std::istream& is, const A& allocator)
 
   if (!is.good())
     throw std::runtime_error("error reading from std::istream"); 
+  if (!compactFlag) sketch->checkStoredCount();
 
   return ptr.release();
 }
